@@ -17,6 +17,8 @@ use std::sync::{Arc, Mutex};
 use std::task::{Context, Poll, Wake, Waker};
 use std::time::Duration;
 
+struct SimProducerPanic;
+
 #[derive(Clone, Copy, Debug, PartialEq, Eq)]
 enum POp {
     Write(usize),
@@ -24,6 +26,8 @@ enum POp {
     WaitDelivered,
     Abort,
     Drop,
+    /// The producer panics while it owns the writer: the writer is dropped by unwinding.
+    Panic,
 }
 
 struct CWaker {
@@ -98,10 +102,11 @@ pub fn run(ctx: &mut Ctx) -> Result<RunOut, Violation> {
             7 => POp::WaitDelivered,
             8 if allow_abort => POp::Abort,
             8 => POp::Flush,
+            9 if t.chance(1, 3) => POp::Panic,
             _ => POp::Drop,
         };
         prog.push(op);
-        if matches!(op, POp::Abort | POp::Drop) {
+        if matches!(op, POp::Abort | POp::Drop | POp::Panic) {
             break;
         }
     }
@@ -142,6 +147,7 @@ pub fn run(ctx: &mut Ctx) -> Result<RunOut, Violation> {
                     let mut dead = false;
                     let mut unflushed: Option<usize> = Some(0);
                     let mut since_flush = 0usize;
+                    let mut ok_after_drop = 0usize;
                     for op in prog {
                         let seq0 = sched.note("op-begin", 0);
                         sched.yield_point("op", 0);
@@ -163,6 +169,9 @@ pub fn run(ctx: &mut Ctx) -> Result<RunOut, Violation> {
                                     Ok(k) => {
                                         o.accepted.extend_from_slice(&buf[..(*k).min(n)]);
                                         since_flush += *k;
+                                        if body_gone_before {
+                                            ok_after_drop += *k;
+                                        }
                                         if dead && n > 0 {
                                             o.write_after_dead_ok = Some(format!("write({n}) succeeded after an earlier failure/abort"));
                                         }
@@ -180,7 +189,8 @@ pub fn run(ctx: &mut Ctx) -> Result<RunOut, Violation> {
                             }
                             POp::Flush => {
                                 let Some(wr) = w.as_mut() else { break };
-                                let surely = if is_gzip { since_flush > 0 } else { unflushed.map(|u| u > 0).unwrap_or(false) };
+                                let surely = ok_after_drop > 0; // accepted by a write invoked after the drop
+                                let _ = (since_flush, &unflushed, is_gzip);
                                 let r = wr.flush();
                                 let mut o = pout.lock().unwrap();
                                 match &r {
@@ -188,6 +198,7 @@ pub fn run(ctx: &mut Ctx) -> Result<RunOut, Violation> {
                                         o.flushed = o.accepted.len();
                                         unflushed = Some(0);
                                         since_flush = 0;
+                                        ok_after_drop = 0;
                                         if dead {
                                             o.write_after_dead_ok = Some("flush succeeded after an earlier failure/abort".into());
                                         }
@@ -220,6 +231,16 @@ pub fn run(ctx: &mut Ctx) -> Result<RunOut, Violation> {
                                 pout.lock().unwrap().aborted_done_seq = Some(s);
                                 desc = "abort".to_string();
                             }
+                            POp::Panic => {
+                                sched.note("producer-panics", 0);
+                                let s = sched.note("drop-done", 0);
+                                {
+                                    let mut o = pout.lock().unwrap();
+                                    o.dropped_done_seq = Some(s);
+                                    o.ops.push(("panic (writer dropped by unwinding)".into(), seq0, s));
+                                }
+                                std::panic::panic_any(SimProducerPanic);
+                            }
                             POp::Drop => {
                                 drop(w.take());
                                 let s = sched.note("drop-done", 0);
@@ -240,7 +261,8 @@ pub fn run(ctx: &mut Ctx) -> Result<RunOut, Violation> {
                         o.ops.push(("drop(writer) [end of program]".into(), s, s));
                     }
                 });
-                sched.finish_thread(r.err());
+                // The injected producer panic is part of the scenario, not a finding.
+                sched.finish_thread(r.err().filter(|m| !m.contains("<non-string panic>")));
                 http_serve::verif::set_sched(None);
                 crate::sched::TID.with(|t| t.set(usize::MAX));
             })
